@@ -29,7 +29,7 @@ def setup(lib):
     contracts.attach(lib, which=("hashtable", "ragged"))
 
 
-def make(case, mod):
+def make(case, mod, keep=None):
     C = CTX.lib.Counter
     keys, kd, init = case["keys"], case["kdtype"], case["init"]
     ka = c11.karr(keys, kd)
@@ -37,7 +37,10 @@ def make(case, mod):
     if init == "default":
         return C(ka, **kw)
     if isinstance(init, list):
-        return C(ka, np.array(init), **kw)
+        arr = np.array(init)
+        if keep is not None:
+            keep.append(arr)      # the caller keeps his start-value array
+        return C(ka, arr, **kw)
     return C(ka, init, **kw)
 
 
@@ -66,7 +69,8 @@ def run(case):
     tags = ["init:" + ("default" if init == "default" else ("array" if isinstance(init, list) else ("scalar0" if init == 0 else "scalar"))),
             "mod:" + ("None" if mod is None else ("1" if mod == 1 else "explicit")), "kd:" + (kd or "list")] + (["keys>=33"] if len(keys) >= 33 else [])
     desc0 = "Counter(keys=%s %s, init=%s, mod=%s)" % (kd, short(keys, 120), short(init, 60), mod)
-    c = attempt(make, case, mod)
+    kept = []
+    c = attempt(make, case, mod, kept)
     if not c.ok:
         return violated("%s raised %r" % (desc0, c), tags)
     cn = c.value
@@ -106,6 +110,14 @@ def run(case):
                 desc0, short([bb["samples"] for bb in case["batches"][:bi + 1]], 200), short(keys, 100), repr(r) if not r.ok else r.value, e), tags, got=repr(r), expected=e)
     final = [model[k] for k in keys]
     nontrivial = len(keys) >= 2 and hits_so_far >= 1
+    if kept:
+        CTX.tick("c12:caller-array")
+        if kept[0].tolist() != list(init):
+            return violated("%s: counting wrote into the caller's array of start values: it now reads %s (was %s)" % (desc0, kept[0].tolist(), init), tags + ["caller-array-written"])
+        kept[0] += 1000
+        r = attempt(totals, cn, case)
+        if not r.ok or r.value != final:
+            return violated("%s: after the caller changed his array of start values the counter reads %s, expected %s" % (desc0, repr(r) if not r.ok else r.value, final), tags + ["aliases-caller-array"])
 
     def twin(name, mod_, plan):
         """plan: list of sample lists; a fresh counter counts them, reading only at the end"""
@@ -178,7 +190,7 @@ def gen_history(rng, tier, kd="pick", init=None, mod="pick", nb=None):
         return None
     batches = []
     for _ in range(nb if nb is not None else rng.randint(0, 5)):
-        kind = rng.choice(["empty", "nokey", "onlykeys", "mixed", "heavy", "collide", "wide", "othersign", "fewrepeats"])
+        kind = rng.choice(["empty", "nokey", "onlykeys", "mixed", "heavy", "collide", "wide", "othersign", "fewrepeats", "veryheavy"])
         L = rng.randint(1, 14)
         b = {"kind": kind}
         if kind == "empty":
@@ -191,6 +203,10 @@ def gen_history(rng, tier, kd="pick", init=None, mod="pick", nb=None):
             s = [keys[0]] * (3 * L) + [rng.choice(keys) for _ in range(2)]
         elif kind == "collide":
             s = [rng.choice(keys) if rng.random() < 0.4 else nonkey(collide=True) for _ in range(L)]
+        elif kind == "veryheavy":
+            # one key repeated more often than a narrow integer type can count (128 / 256 / 300 times)
+            kind = b["kind"] = "heavy"
+            s = [rng.choice(keys)] * rng.choice([127, 128, 129, 255, 256, 257, 300]) + [rng.choice(keys) for _ in range(3)]
         elif kind == "fewrepeats":
             kind = b["kind"] = "mixed"
             k1 = rng.choice(keys)
@@ -252,6 +268,15 @@ def directed():
         for init in ("default", [2, 0, 1, 5, 0]):
             yield {"keys": [3, 7, 11, 20, 41], "kdtype": "int64", "mod": None, "mod2": 3, "init": init, "perm": [], "cuts": [1000, 100000, 100001],
                    "batches": [{"kind": "huge", "gen": {"n": n_, "mult": 3, "extra": [5, 99, -4]}}]}
+    # a narrow key dtype, values already materialised, then one key more often than that dtype can count
+    for kd_, reps in (("int8", 128), ("uint8", 256), ("int8", 300), ("int16", 200)):
+        for init in ("default", [1, 2, 3]):
+            yield {"keys": [5, 9, 100], "kdtype": kd_, "mod": None, "mod2": 3, "init": init, "perm": [], "cuts": [1],
+                   "batches": [{"kind": "onlykeys", "samples": [5, 100]}, {"kind": "heavy", "samples": [9] * reps + [5]}]}
+    # keys already in bucket order (no reordering needed), per-key start values given as an array
+    for kd_ in ("int64", "int32", None):
+        yield {"keys": [0, 1, 2, 3, 4], "kdtype": kd_, "mod": None, "mod2": 2, "init": [3, 0, 1, 4, 1], "perm": [], "cuts": [2],
+               "batches": [{"kind": "onlykeys", "samples": [1, 1, 4]}, {"kind": "mixed", "samples": [0, 7, 2]}]}
     # a big table, values already materialised, then a small batch in which one key repeats
     big = list(range(100, 100 + 3 * 40, 3))
     for init in ("default", 4, [1] * 40):
